@@ -77,5 +77,13 @@ proof {
 }""",
                  exit=None),
         ]),
+        # what the finished builder hands to from_root, entry by entry (the order is IndexMap's insertion order: assumed)
+        dict(file="src/compact.rs", path="impl Iterator for OptIntoIter / fn next", closure=0, expr_closure=True,
+             header_re=r"^\|\((\w+), \(_, (\w+)\)\)\|$", as_fn="optintoiter_next__entry", generics="<K, V>",
+             params="$1: Result<K, usize>, $2: V", ret="out", ret_type="(Option<K>, V)",
+             obligation="C11.V.compact_opt.into_iter_entry", rules=[],
+             contract="""ensures
+    // the stored value is handed over unchanged; a named infoset keeps its label, an anonymous one has none
+    out.1 == $2 && out.0 == (match $1 { Ok(k) => Some(k), Err(_) => None::<K> }), // @ob C11.V.compact_opt.into_iter_entry"""),
     ],
 )
